@@ -272,3 +272,55 @@ def run_seeded(prop=None, only=None, jobs=8):
             extract.extract(c, use_cache=False)
     with ProcessPoolExecutor(max_workers=min(jobs, len(metas))) as ex:
         return list(ex.map(run_seeded_one, metas))
+
+
+def cross_catalogue(seed_ids=None, jobs=16):
+    """every breaking catalogue mutant whose text pattern still applies after a behaviour-preserving seed was applied is
+    run on top of that seed (does the rule still see the breakage in the refactored form?)"""
+    import re
+    import subprocess
+    seeds = [m for m in load_seeded(None) if m.get("kind") == "preserve" and (not seed_ids or m["id"] in seed_ids)]
+    rdir = os.path.join(extract.VERIF, "mutants")
+    cats = sorted(f[:-3] for f in os.listdir(rdir) if re.match(r"C\d\d\.py$", f))
+    work = []
+    for sd in seeds:
+        tmp = tempfile.mkdtemp(prefix="cwmt-cross-")
+        try:
+            shutil.copytree(os.path.join(extract.REPO, "src"), os.path.join(tmp, "src"))
+            r = subprocess.run(["patch", "-p1", "-s", "--no-backup-if-mismatch", "-i", sd["patch"]], cwd=tmp, stdout=subprocess.PIPE, stderr=subprocess.STDOUT, text=True)
+            if r.returncode != 0:
+                continue
+            touched = set(re.findall(r"^\+\+\+ b/(\S+)", open(sd["patch"]).read(), re.M))
+            for prop in cats:
+                for m in load_catalogue(prop):
+                    if m["kind"] != "break" or m.get("rustc_rejects") or m.get("base"):
+                        continue
+                    edits = m.get("edits") or [(m["file"], m["old"], m["new"])]
+                    if not any(e[0] in touched for e in edits):
+                        continue
+                    ok = True
+                    for e in edits:
+                        try:
+                            text = open(os.path.join(tmp, e[0])).read()
+                        except OSError:
+                            ok = False
+                            break
+                        want = e[3] if len(e) > 3 else m.get("count", 1)
+                        if text.count(e[1]) != want:
+                            ok = False
+                            break
+                        # the pattern must lie in code the seed left alone or rewrote compatibly: it applies, that is enough
+                    if ok:
+                        mm = dict(m)
+                        mm["base"] = sd["id"]
+                        mm["id"] = "%s@%s" % (m["id"], sd["id"].split("-")[0])
+                        cfgs = set(m["configs"]) | ({"all-features"} if "staking" in " ".join(e[0] for e in edits) else set())
+                        mm["configs"] = sorted(cfgs)
+                        work.append(mm)
+        finally:
+            shutil.rmtree(tmp, ignore_errors=True)
+    for c in sorted({c for m in work for c in m["configs"]}):
+        if not os.path.exists(os.path.join(extract.WORK, "cmd-%s.json" % c)):
+            extract.extract(c, use_cache=False)
+    with ProcessPoolExecutor(max_workers=jobs) as ex:
+        return list(ex.map(run_one, work))
